@@ -43,6 +43,9 @@ CLAIMED = {
  "C15": ("model_checking", "5 C15",
    "Context.tla transcribes ContextTracker (per-manager depth counter and depth->saved dict, enter/exit/decorator, turn_memory_guarding_*). TLC checks ScopedRestore / EnterSets / DepthConsistent / DefaultOutside exhaustively to nesting depth 7 (~670k states); every behaviour of bounded length is replayed with real with-blocks, decorators and raising bodies, comparing both switches after every event; programs executed inside random nestings are validated against Ref.tla (untracked ops record nothing, keep gradients, write in place; backward is a no-op).",
    "explicit TLA+ mechanism model checked exhaustively with TLC; every enumerated behaviour replayed on the implementation; trace validation of programs run inside scopes"),
+ "C02": ("model_checking", "5 C02",
+   "OpTable.tla enumerates, for every operation the reference defines (arithmetic, power, abs/relu, reductions incl. prod with zeros, var/ddof, matmul, get/set-item with basic / advanced / boolean / repeated indices and broadcast values, ufunc where=+out=, reshaping / transposing / joining / tiling / where), the lattice of operand shapes (0-d, empty, broadcasting), operand kinds (tensor, constant, transposed view, scalar, array) and options, and computes value, shape and the exact VJP for a filler seed from the forward definition over dual numbers; every cell is replayed on MyGrad and compared exactly. For the transcendental kernels Kernels.tla states each derivative as an expression tree, TLC checks the table is total and the domain grids cover both signs and the documented conventions are rows; the harness evaluates the trees in extended precision on the grids (1e-9) and the convention rows exactly. Operations without a row are listed in the evidence.",
+   "explicit TLA+ reference + decision tables checked with TLC; every cell replayed exactly; transcendental derivative table evaluated numerically on domain grids (declared assumption)"),
  "C03": ("model_checking", "5 C03",
    "tables/Promote.tla states NumPy's NEP-50 promotion (arrays strong, Python scalars weak) and the per-operation dtype rules, checks the table's own sanity (commutativity, never narrower, weak scalars keep precision) and enumerates the configuration space: 7 binary ufuncs x 6 array dtypes x 9 operand kinds x side x shape x layout, keyword options (where / out / dtype and their combinations), 16 unary ufuncs, 9 reductions x axis/keepdims options, 15 data-movement functions x 4 memory layouts, matmul / einsum / where. Every cell is evaluated by MyGrad with tracking on, by MyGrad under no_autodiff and by NumPy on the raw arrays; values must be bit-identical, shapes and dtypes equal, and the dtype equal to the table's.",
    "explicit TLA+ decision table checked with TLC (exhaustive enumeration); every cell executed three ways (MyGrad tracked / untracked / NumPy)"),
